@@ -128,6 +128,9 @@ def run(ctx):
             p["plateau"] = k in (4, 5)
             p["z_symmetric"] = k in (1, 2, 5)
             p["nr"], p["nz"] = max(p["nr"], 9), max(p["nz"], 9)     # the special features need a few nodes
+            if k in (2, 5):
+                # low aspect ratio, tall: the diagonal r == z runs through the inside of the LCFS
+                p.update(R0=1.5, a=0.625, kappa=1.75, length_scale_exp=0)
         elif k in (6, 7):
             # smallest grids / polygons and the ends of the scale ranges, in every run
             p.update(nr=3 if k == 6 else 5, nz=4 if k == 6 else 3, poly_n=3 if k == 6 else 4, u0=0.0, plateau=False,
@@ -148,6 +151,7 @@ def run(ctx):
     array_shapes, rejection_outcomes, edge_outcomes, zero_combos, zero_forms = {}, {}, {}, {}, {}
     zero_points = {"toroidal": 0, "poloidal": 0, "normal": 0}
     audit_counts = {"history_re_evaluations": 0, "direct_helper_class_comparisons": 0, "attribute_comparisons": 0,
+                    "calls_in_sequences_on_one_long_lived_object_vs_fresh_objects": 0,
                     "unit_basis_vector_comparisons": 0}
     pip_cases, interp_cases, interp_meta, policy_observed = {}, [], [], {}
     cubic_cases, cubic_meta = [], []
@@ -290,6 +294,10 @@ def run(ctx):
         # directly, readable attributes, one ulp outside the domain
         ctx.crumb({"equilibrium": E.describe(), "stage": "history / fresh object / direct classes / attributes"})
         hf, hn = H.history_failures(E, sets, built, evaluated, rng, E.rebuild, n=10 if quick else 20)
+        sf, sn_ = H.sequence_failures(E, sets[0], built[0], rng, max_calls=(40 if E.params is None else 70) if quick else 200)
+        audit_counts["calls_in_sequences_on_one_long_lived_object_vs_fresh_objects"] += sn_
+        for f in sf:
+            fails.append(f)
         df, dn = H.direct_class_failures(E, sets, built, evaluated, rng, n=6 if quick else 20)
         af, an = H.attribute_failures(E, rng)
         uf, un = H.unit_basis_failures(E, evaluated, rng, n=4 if quick else 12)
